@@ -3,13 +3,13 @@ every recorded history on the Coq model (model.AlphWatcher) and compare step by 
 import json, os
 import core
 
-EXTRACTORS = ["alph_confirm", "alph_poll", "alph_tokeninfo", "alph_reobserve"]
+EXTRACTORS = ["alph_confirm", "alph_poll", "alph_tokeninfo", "alph_reobserve", "alph_process"]
 
 HDR = ("From Coq Require Import List ZArith Bool.\n"
        "From WH Require Import lib.Wire gen.Extracted model.AlphWatcher.\n"
        "Import ListNotations.\nOpen Scope Z_scope.\n"
        "Definition E (u b i : Z) (c : option wmsg) : cevent := {| e_uid := u; e_block := b; e_index := i; e_conv := c |}.\n"
-       "Definition WM (s cl : Z) (k : pkind) (t : option tokinfo) : option wmsg := Some {| m_sender := s; m_cl := cl; m_kind := k; m_tok := t |}.\n"
+       "Definition WM (s cl p0 : Z) (t : option tokinfo) : option wmsg := Some {| m_sender := s; m_cl := cl; m_p0 := p0; m_tok := t |}.\n"
        "Definition TI (a b c d : Z) : option tokinfo := Some {| ti_id := a; ti_dec := b; ti_sym := c; ti_name := d |}.\n"
        "Definition H (t h : Z) : option header := Some {| h_ts := t; h_height := h |}.\n"
        "Definition look {A} (d : A) (l : list A) (i : Z) : A := if i <? 0 then d else nth (Z.to_nat i) l d.\n"
@@ -18,8 +18,8 @@ HDR = ("From Coq Require Import List ZArith Bool.\n"
        "Definition pgf (pages : list (Z * page_ans)) (echo : bool) : nat -> Z -> page_ans := fun k s =>\n"
        "  match nth_error pages k with Some (s0, a) => if s0 =? s then a else PageErr | None => if echo then Page [] s else PageErr end.\n"
        "Definition TE (a : Z) (e : cevent) : tevent := {| t_addr := a; t_ev := e |}.\n"
-       "Definition RO (st : option (option Z)) (evs : option (list tevent)) (hd : Z -> option header) (ta : Z -> mc_ans) (mc : option bool) (ht : option Z) (now : Z) : op :=\n"
-       "  OReobs {| r_status := st; r_events := evs; r_hd := hd; r_tok := fun p => tokof ta (t_ev (look (TE 0 E0) (match evs with Some l => l | None => [] end) p));\n"
+       "Definition RO (ch tl : Z) (st : option (option Z)) (evs : option (list tevent)) (hd : Z -> option header) (ta : Z -> mc_ans) (mc : option bool) (ht : option Z) (now : Z) : op :=\n"
+       "  OReobs {| r_chain := ch; r_txlen := tl; r_status := st; r_events := evs; r_hd := hd; r_tok := fun p => tokof ta (t_ev (look (TE 0 E0) (match evs with Some l => l | None => [] end) p));\n"
        "            r_mc := mc; r_height := ht; r_now := now |}.\n"
        "(* expected observation of one step: flag code, forwarded uids (any order), batch uids (in order), page requests, fromIndex, poller flag (-1 = not observed) *)\n"
        "Definition xout := (Z * list Z * list Z * Z * Z * Z)%type.\n"
@@ -110,10 +110,9 @@ class Tr:
     def conv(self, c):
         if c is None:
             return "None"
-        kind = {"t": "PTransfer", "a": "PAttest", "o": "POther"}[c["k"]]
         t = c.get("tok")
         tok = "None" if t is None else "(TI %d %d %d %d)" % (t["id"], t["dec"], self.strid(t["sym"]), self.strid(t["name"]))
-        return "(WM %d %d %s %s)" % (c["s"], c["cl"], kind, tok)
+        return "(WM %d %d %s %s)" % (c["s"], c["cl"], z(c["p0"]), tok)
 
     def mcans(self, a):
         if a == "err":
@@ -166,6 +165,12 @@ class Tr:
                 ops.append("OPoll %s (pgf %s %s) tok" % (cnt, core.glist(pages), "true" if s["res"] == "spin" else "false"))
                 fl = {"idle": 0, "batch": 0, "fatal": 1, "spin": 2, "panic": 3}.get(s["res"], 9)
                 ok = s["res"] in ("idle", "batch")
+                # the model's page loop has fuel count-fromIndex+1 (PSpin = more page requests than that)
+                if s["cnt"] is not None and s["nreq"] > max(s["cnt"] - s["from"], 0) + 1:
+                    if s["res"] in ("batch", "spin"):
+                        fl, ok = 2, False
+                    else:
+                        self.skip = "poll beyond the request bound that ended with " + s["res"]
                 xs.append("(%d, [], %s, %s, %s, -1)" % (fl, core.glist(str(u) for u in s["batch"]) if ok else "[]",
                                                         z(s["nreq"]) if s["res"] == "batch" else "-1", z(s["newfrom"]) if ok else "-1"))
             elif op == "deliver":
@@ -182,7 +187,7 @@ class Tr:
                 fl = {"ok": 0, "fatal": 1, "panic": 3}.get(s["res"], 9)
                 xs.append("(%d, %s, [], -1, -1, %s)" % (fl, core.glist(str(u) for u in s["fwd"]), ("1" if s["enabled"] else "0") if fl == 0 else "-1"))
             elif op == "reobs":
-                if s["short"] or s["status"] is None:
+                if s["status"] is None:
                     st = "None"
                 elif s["status"] == -1:
                     st = "(Some None)"
@@ -192,7 +197,7 @@ class Tr:
                 hd = "hd" if s["hderr"] < 0 else "(fun b => if b =? %d then None else hd b)" % s["hderr"]
                 mc = "None" if s["mc"] is None else ("(Some true)" if s["mc"] else "(Some false)")
                 ht = "None" if s["height"] is None else "(Some %d)" % s["height"]
-                ops.append("RO %s %s %s ta %s %s %s" % (st, ev, hd, mc, ht, z(s["lo"] - self.base)))
+                ops.append("RO %d %d %s %s %s ta %s %s %s" % (s["chain"], s["txlen"], st, ev, hd, mc, ht, z(s["lo"] - self.base)))
                 fl = {"ok": 0, "panic": 3}.get(s["res"], 9)
                 xs.append("(%d, %s, [], -1, -1, -1)" % (fl, core.glist(str(u) for u in s["fwd"])))
         text = ("(let T := %s in let ev := look E0 T in let ta := look McErr %s in let hd := look (@None header) %s in\n"
